@@ -93,7 +93,10 @@ def gen_case(rng):
                 ln = rng.randint(0, max(0, room // (n - i)))
             dgs.append(ln)
             size += ln + HDR + TAIL
-        dgs.append(rng.randint(0, 5))      # one more that may not fit
+        # more that may not fit, then smaller ones that may fit again
+        for _ in range(rng.randint(1, 3)):
+            dgs.append(rng.choice([rng.randint(0, 5), rng.randint(0, 40),
+                                   0]))
     elif style < 0.5:
         # count boundary
         n = rng.choice([13, 14, 15, 16, 17])
@@ -121,6 +124,16 @@ def gen_case(rng):
                 ethertype=rng.choice([0x88A4, 0x3000, 0x5fff]))
 
 
+def sterile_of(p, case, index=0, ethertype=0x88A4):
+    """the sterile copy (or the exception it raises, as a string)"""
+    if not case["sterile"]:
+        return None
+    try:
+        return bytes(p.sterile(index, ethertype))
+    except Exception as ex:
+        return f"{type(ex).__name__}: {ex}"
+
+
 def check_case(case, res):
     P = SterilePacket if case["sterile"] else PKT
     p = P()
@@ -128,7 +141,8 @@ def check_case(case, res):
     writers = []
     for d in case["dgs"]:
         data = bytes((d["seed"] + i) & 0xff for i in range(d["len"]))
-        before = (p.size, len(p.data), p.assemble(0, 0x88A4))
+        before = (p.size, len(p.data), p.assemble(0, 0x88A4),
+                  sterile_of(p, case))
         fits = p.size + d["len"] + HDR + TAIL <= Packet.MAXSIZE and \
             len(accepted) < 15
         try:
@@ -163,7 +177,8 @@ def check_case(case, res):
                 f"{'accepted' if ok else 'rejected'}", case=case)
             return
         if not ok:
-            after = (p.size, len(p.data), p.assemble(0, 0x88A4))
+            after = (p.size, len(p.data), p.assemble(0, 0x88A4),
+                     sterile_of(p, case))
             if after != before:
                 res.violation("unexplained:rejected-append-changed-packet",
                               "a rejected datagram changed the packet",
@@ -228,7 +243,11 @@ def check_case(case, res):
         if not dgs[0].more:
             problems.append("identification datagram without 'more'")
     if case["sterile"]:
-        st = bytes(p.sterile(case["index"], case["ethertype"]))
+        st = sterile_of(p, case, case["index"], case["ethertype"])
+        if isinstance(st, str):
+            res.violation("unexplained:sterile-raised",
+                          f"sterile() raised {st}", case=case)
+            return
         exp = bytearray(frame)
         for w in writers:
             exp[dgs[w + 1].hdr_pos] = 0
